@@ -962,26 +962,3 @@ Qed.
 
 Lemma reject_example : backfill 0 [ESample 0 (Some 5) 1; ESample 1 None 2; ESample 0 (Some 7200005) 3] = BFRejected RejNoTs.
 Proof. reflexivity. Qed.
-
-(* 5000 series with one sample each in the window [0, 2h), preceded by one sample in the window
-   before; then series 0 again.  The 5000th Append triggers a Commit, so the last line is
-   checked by Append against committed samples. *)
-Definition batch_input (last : entry) : list entry :=
-  ESample 0 (Some (-1)) 1 :: map (fun i => ESample (Z.of_nat i) (Some 5) 1) (seq 0 5000) ++ [last].
-
-(* going back in time after the batch boundary: "add sample: out of order sample"; the block
-   of the earlier window has already been written *)
-Lemma batch_boundary_error :
-  backfill 0 (batch_input (ESample 0 (Some 4) 1)) = BFCreateErr [mkBlock (-7200000) [(0, -1, 1)]].
-Proof. vm_compute. reflexivity. Qed.
-
-(* the same line one position earlier (inside the first batch) is dropped silently: the run
-   succeeds with 5000 samples in the second block, (0, 4, 1) not among them *)
-Lemma batch_inside_dropped :
-  match backfill 0 (ESample 0 (Some (-1)) 1 :: ESample 0 (Some 5) 1 :: ESample 0 (Some 4) 1 ::
-                    map (fun i => ESample (Z.of_nat i) (Some 5) 1) (seq 1 4999)) with
-  | BFOk [b1; b2] => (Z.of_nat (length (b_samples b2)) =? 5000) &&
-                     negb (existsb (fun x => (s_sid x =? 0) && (s_ts x =? 4)) (b_samples b2))
-  | _ => false
-  end = true.
-Proof. vm_compute. reflexivity. Qed.
